@@ -113,3 +113,22 @@ Example C15_example :
   let doc := VArr [VObj []; VNum (num_of_Z 1)] in
   spec_error (fun _ _ => None) (fun _ _ => None) (fun _ _ => false) path doc = Some (EMember (bb ".a" ".a")).
 Proof. vm_compute. reflexivity. Qed.
+
+(* From the path text (ErrNames.v): a path of name steps (each in any of the three spellings) fails at the FIRST step that
+   cannot be taken — "member did not exist" when the value there is an object without that member, "type unmatched"
+   (expected object, found the Go type of the value) when it is not an object — and the error carries the text of that
+   step as written; it succeeds when every step can be taken.  first_fail is defined on the document alone. *)
+From JP Require Import Json Text Tree Grammar Actions KeyDefs ChainParse ChainAddr ErrNames.
+From Coq Require Import List. Import ListNotations.
+Theorem C15_first_failing_step_from_text : forall cfg parse_float regex_ok ffun afun regex_match,
+  (forall f v w, small v -> ffun f v = Some w -> small w) ->
+  (forall f l w, Forall small l -> afun f l = Some w -> small w) ->
+  forall s r doc st, forallb step_ok (s :: r) = true -> forallb is_name (s :: r) = true -> small doc -> ok st ->
+  exists t, parse_with cfg parse_float regex_ok jsonpath_grammar (chain_path (map RPlain (s :: r))) = ParseOk t /\
+            match first_fail doc (s :: r) with
+            | None => exists rs, fst (eval_run ffun afun regex_match t doc st) = OOk rs
+            | Some (x, None) => exists b, fst (eval_run ffun afun regex_match t doc st) = OErr (EMember b) /\ text b = step_text x
+            | Some (x, Some ty) => exists b, fst (eval_run ffun afun regex_match t doc st) = OErr (EType b "object" ty) /\ text b = step_text x
+            end.
+Proof. exact name_path_error. Qed.
+Print Assumptions C15_first_failing_step_from_text.
